@@ -210,6 +210,7 @@ class Stmt:
         self.limit = None
         self.offset = None
         self.conflict_cols = None
+        self.conflict_any = False
         self.update_set = []  # columns assigned in DO UPDATE SET / UPDATE SET
         self.set_literals = {}  # column -> literal in SET col = 'lit'
         self.select_cols = []
@@ -235,9 +236,11 @@ class Stmt:
             if m:
                 self.table = m.group(1)
                 self.columns = [c.strip() for c in m.group(2).split(",")]
-            mc = re.search(r"ON\s+CONFLICT\s*\(([^)]*)\)\s*DO\s+(UPDATE\s+SET\s+(.*)|NOTHING)", self.text, re.I | re.S)
+            mc = re.search(r"ON\s+CONFLICT\s*(?:\(([^)]*)\))?\s*DO\s+(UPDATE\s+SET\s+(.*)|NOTHING)", self.text, re.I | re.S)
             if mc:
-                self.conflict_cols = [c.strip() for c in mc.group(1).split(",")]
+                # `ON CONFLICT DO UPDATE` without a target applies to a conflict on *any* unique index: recorded as an empty target
+                self.conflict_cols = [c.strip() for c in mc.group(1).split(",")] if mc.group(1) is not None else []
+                self.conflict_any = mc.group(1) is None
                 if mc.group(3):
                     for a in split_top(mc.group(3)):
                         self.update_set.append(a.split("=")[0].strip())
